@@ -43,7 +43,30 @@ Proof.
 Qed.
 Print Assumptions C18_no_leak.
 
-(*PIPELINE_NO_LEAK*)
+(* No leak, pipeline transport (connpool): in every reachable state after Pool.Close, a connection that is
+   still open is no longer in the open pool and has a closer that is already past "mark closed" (PsCloseB:
+   its next step closes the net.Conn) or a pending closer started by the pool's idle trimming / the read loop
+   (PsCloseA: two steps).  Those steps are enabled and close it.  Late dial results are closed by their own
+   completion step (they enter the table closed: see p_step PDialFinish). *)
+Theorem C18_no_leak_pipeline : forall ls s,
+  p_run p_init ls = Some s -> ps_closed s = true ->
+  forall c k0, nth_error (ps_conns s) c = Some k0 -> pc_open k0 = true ->
+    (pc_closed k0 = true /\ has_stage (ps_tasks s) (PsCloseB c)) \/
+    (pc_closed k0 = false /\ has_stage (ps_tasks s) (PsCloseA c)).
+Proof. exact p_no_leak. Qed.
+Print Assumptions C18_no_leak_pipeline.
+
+Theorem C18_pipeline_closer_progress : forall s t k c k0,
+  nth_error (ps_tasks s) t = Some k -> nth_error (ps_conns s) c = Some k0 ->
+  (pt_stage k = PsCloseB c ->
+     exists s', p_step s (PCloseB t) = Some s' /\
+                exists k', nth_error (ps_conns s') c = Some k' /\ pc_open k' = false) /\
+  (pt_stage k = PsCloseA c -> pc_closed k0 = false ->
+     exists s', p_run s [PCloseA t; PCloseB t] = Some s' /\
+                exists k', nth_error (ps_conns s') c = Some k' /\ pc_open k' = false).
+Proof. exact p_closer_progress. Qed.
+Print Assumptions C18_pipeline_closer_progress.
+
 (* ------------------------------------------------------------------------------------------------
    Fail, not hang (reuse transport): in every reachable closed state, a caller that is still waiting
    reaches an error by at most two enabled steps, none of which needs the peer or the caller's own
